@@ -491,6 +491,23 @@ def t_error_total(rest: str) -> bool:
         return True
     return False
 
+_DEC = "0123456789"
+
+def int_literal_value(digits: str) -> bool:
+    """
+    pre: 1 <= len(digits) <= @N_LIT@
+    pre: all(ch in _DEC for ch in digits)
+    post: _
+    """
+    # the real t_INT_LITERAL action on any decimal digit string (leading zeros included): the token's value is the
+    # number the digits denote in base ten
+    t = _Tok(); t.value = digits; t.lexer = _Tok(); t.lexer.lineno = 1
+    got = _LX.t_INT_LITERAL(t).value
+    ref = 0
+    for ch in digits:
+        ref = ref * 10 + (ord(ch) - 48)
+    return got == ref
+
 def vacuity_twin(value: str) -> bool:
     """
     pre: len(value) <= 2
@@ -510,12 +527,12 @@ def work_strings(_: Any) -> Dict[str, Any]:
     res = {"case": "strings", "messages": 1, "paths": 0, "queries": 0, "unsat": 0, "sat": 0, "unknown": 0, "solver_s": 0.0, "witness": 0, "witness_agree": 0, "violations": [], "inconclusive": [], "samples": [], "obligations": 0}
     q = tier() == "quick"
     n_esc, n_emit, tmo = (3, 3, 150) if q else (5, 4, 600)  # per-condition CPU budget; a confirmed condition returns at once (3-10 s when the machine is idle)
-    src = CH_HARNESS.replace("@COMPILER@", os.path.join(REPO, "compiler")).replace("@PLY@", PLY_DIR).replace("@N_ESC@", str(n_esc)).replace("@N_EMIT@", str(n_emit))
+    src = CH_HARNESS.replace("@COMPILER@", os.path.join(REPO, "compiler")).replace("@PLY@", PLY_DIR).replace("@N_ESC@", str(n_esc)).replace("@N_EMIT@", str(n_emit)).replace("@N_LIT@", str(6 if q else 9))
     with Scratch() as sc:
         hp = sc.path("c13_strings_harness.py")
         with open(hp, "w") as f:
             f.write(src)
-        fns = ["escape_loop_total", "emit_roundtrip_c", "emit_roundtrip_go", "emit_roundtrip_py", "t_error_total", "vacuity_twin"]
+        fns = ["escape_loop_total", "emit_roundtrip_c", "emit_roundtrip_go", "emit_roundtrip_py", "t_error_total", "int_literal_value", "vacuity_twin"]
         lines = {fn: next(i + 2 for i, l in enumerate(src.split("\n")) if l.startswith(f"def {fn}(")) for fn in fns}
         procs = []
         import subprocess
@@ -542,7 +559,7 @@ def work_strings(_: Any) -> Dict[str, Any]:
                 continue
             if "Confirmed over all paths" in out:
                 res["unsat"] += 1
-                res["samples"].append({"crosshair": fn, "bound": n_esc if fn.startswith("escape") else n_emit, "verdict": "Confirmed over all paths"})
+                res["samples"].append({"crosshair": fn, "bound": (6 if q else 9) if fn == "int_literal_value" else n_esc if fn.startswith("escape") else n_emit, "verdict": "Confirmed over all paths"})
             elif "false when calling" in out or "error:" in out:
                 m = re.search(r"when calling (\w+)\((.*)\)", out)
                 arg = m.group(2) if m else out[-200:]
@@ -553,6 +570,8 @@ def work_strings(_: Any) -> Dict[str, Any]:
                 else:
                     lang = fn.rsplit("_", 1)[-1]
                     what = "the lexer does not answer with a LexerError" if fn in ("t_error_total", "escape_loop_total") else f"the emitted {lang} literal does not denote the declared value"
+                    if fn == "int_literal_value":
+                        lang, what = "lexer", "the value of the integer token is not the number its decimal digits denote"
                     res["violations"].append({"what": f"strings: {fn}({arg}) fails: {what} ({(rr.stdout + rr.stderr).strip()[-160:]})",
                                               "payload": {"kind": "string", "function": fn, "arg": arg, "harness": src}, "confirmed": True, "info": {"kind": "emit-string", "key": f"emit-string-{lang}"}})
             else:
@@ -560,6 +579,8 @@ def work_strings(_: Any) -> Dict[str, Any]:
                 # A bounded native search over a small alphabet cannot PROVE anything, but a counterexample it finds is real.
                 alpha = [_BSL, "n", "t", "r", '"', "'", "a", "?", "\n"] if fn.startswith("escape") else [_BSL, '"', "'", "a", "?", "\n", "\t", "\r", "%", " "]
                 bound = 4 if fn.startswith("escape") else 3
+                if fn == "int_literal_value":
+                    alpha, bound = list("0123456789"), 4
                 probe = ("import sys, itertools; sys.path.insert(0, %r); import c13_strings_harness as h\n"
                          "alpha = %r\n"
                          "for n in range(0, %d):\n"
@@ -573,7 +594,7 @@ def work_strings(_: Any) -> Dict[str, Any]:
                          "            ok = False\n"
                          "        if not ok:\n"
                          "            print(repr(s)); sys.exit(0)\n"
-                         "print('NONE')\n") % (sc.dir, alpha, bound + 1, "not h.token_admits(s)" if fn.startswith("escape") else "False", fn)
+                         "print('NONE')\n") % (sc.dir, alpha, bound + 1, "not h.token_admits(s)" if fn.startswith("escape") else ("not s" if fn == "int_literal_value" else "False"), fn)
                 rr = run(["/usr/local/bin/python3-vt", "-c", probe], timeout=300)
                 found = rr.stdout.strip().split("\n")[-1] if rr.returncode == 0 else "NONE"
                 if found and found != "NONE":
@@ -789,7 +810,7 @@ def main() -> int:
     parts = [("expressions", work, jobs_a), ("capacity+option", work, jobs_b), ("booleans", work_bool, [0]), ("strings-crosshair", work_strings, [0]), ("string-emission-sweep", work_sweep, [0]), ("string-token-extent", work_extent, list(range(0, 10 if q else 14)))]
     meta = {
         "functions_encoded": FILES,
-        "bounds": "all expression shapes with <= 3 binary operators from + - * /, flat and with every parenthesisation (quick: all with <= 2 operators, every third with 3), operands rotating over decimal literal / hex literal / earlier constant / imported constant; operand values symbolic >= 0 (unbounded; with two or more of * / in a shape only the first two operands are symbolic, the others concrete literals); `/` asserted where dividend >= 0 and divisor > 0; strings: CrossHair, token bodies <= 3 (thorough 5) chars for the escape loop, values <= 3 (thorough 4) printable-ASCII/tab/CR/LF chars for emission; string token extent: an opening quote followed by up to 9 (thorough 13) symbolic characters in 1..126, all paths of the token regex under `re` match priorities",
+        "bounds": "all expression shapes with <= 3 binary operators from + - * /, flat and with every parenthesisation (quick: all with <= 2 operators, every third with 3), operands rotating over decimal literal / hex literal / earlier constant / imported constant; operand values symbolic >= 0 (unbounded; with two or more of * / in a shape only the first two operands are symbolic, the others concrete literals); `/` asserted where dividend >= 0 and divisor > 0; integer tokens: CrossHair, the real t_INT_LITERAL action on every decimal digit string of <= 6 (thorough 9) digits, leading zeros included (hex tokens: only the concrete spellings of the templates -- CrossHair does not model int(s, 16)); strings: CrossHair, token bodies <= 3 (thorough 5) chars for the escape loop, values <= 3 (thorough 4) printable-ASCII/tab/CR/LF chars for emission; string token extent: an opening quote followed by up to 9 (thorough 13) symbolic characters in 1..126, all paths of the token regex under `re` match priorities",
         "outside_claim": "decimal rendering of the emitted integer (Python str(int)); that C/Go compilers agree with my literal decoder; non-ASCII and other control characters in strings; values >= 2^63 as C/Go literals",
         "explanation": "per path of the real parser: constant's value term == independent precedence-climbing evaluation of the same token list; the same term arrives as array capacity and max_bytes; the literal the real C/Go/Python renderers emit (sentinel-formatted in the same symbolic run) is the constant's own term; the string token regex (read from the lexer source, parsed by re._parser, interpreted over symbolic characters with greedy/lazy priorities; interpreter validated against re.match on path witnesses) ends every token at the first unescaped quote",
         "evaluations": len(jobs_a) + len(jobs_b) + 2,
